@@ -286,6 +286,21 @@ func Run(rep *report.Report, tier string) {
 	for _, f := range faultNames() {
 		parts = append(parts, "fault/"+f)
 	}
+	// which tests of the suite no fault of the catalogue is aimed at (a test that silently stopped checking its
+	// requirement would go unnoticed there)
+	var bare []string
+	for _, tt := range compliance.TestSuite {
+		hit := false
+		for _, ft := range faultTable {
+			if ft.tests(tt) {
+				hit = true
+			}
+		}
+		if !hit {
+			bare = append(bare, tt.In.ShortName)
+		}
+	}
+	rep.Set("tests_without_a_fault_aimed_at_them", bare)
 	rep.Set("shards", len(parts))
 	rep.Shards(parts, 14, nil)
 	rep.Set("rule", "a case is a sequence of whole compliance tests run on one long-lived reference server (fresh per sequence): closure search over canonical server states, every ordered pair of tests, every permutation of the random-order test, and every (fault wrapper, designated test) pair; non-trivial = the sequence has at least two tests or targets a fault")
